@@ -319,6 +319,18 @@ impl Process {
                 options.set(key, value.clone());
             }
 
+            // the parameters of the action itself are not outputs, they stay with it
+            let own_keys: &[&str] = match action.event {
+                EventAction::Error => &[consts::ACT_ERR_CODE, consts::ACT_ERR_MESSAGE],
+                EventAction::Back => &[consts::ACT_SUBFLOW_TO],
+                _ => &[],
+            };
+            for key in own_keys {
+                if let Some(value) = action.options.get_value(key) {
+                    options.set(key, value.clone());
+                }
+            }
+
             // retset the options by rets defination
             action.options = options;
         }
